@@ -1,4 +1,6 @@
 import Nsl.Props.C01
+import Nsl.Props.C01Storage
+import Nsl.Props.LowerOK
 /-!
 # C03 – calls pass arguments by value into isolated frames and reach the chosen overload
 
@@ -75,6 +77,27 @@ theorem C03_vm_agrees_with_reference (M : Core.Module) (hM : ScalarCore M) (fuel
   C01_compile_correct M hM fuel name args g v g' as hargs hg href
 
 #print axioms C03_vm_agrees_with_reference
+
+/-- The same for call graphs whose functions use local arrays and structs as storage (stage 2 of C01). -/
+theorem C03_vm_agrees_with_reference_storage (M : Core.Module) (hM : StorageCore M) (fuel : Nat) (name : String)
+    (args : List Val) (g : Globals) (v : Val) (g' : Globals) (as : List Val)
+    (hargs : HostVals args) (hg : HostGlobals g)
+    (href : CoreSem.invoke M fuel name args g = .done v g' as) :
+    ∃ fuel', VM.invoke (lowerModule M) fuel' name args g = .done v g' as :=
+  C01_compile_correct_storage M hM fuel name args g v g' as hargs hg href
+
+#print axioms C03_vm_agrees_with_reference_storage
+
+/-- … and for the OPTIMISED program of a scalar-core module: forwarding loads and folding casts across the code that
+surrounds calls does not let a callee's writes leak into the caller. -/
+theorem C03_optimised_vm_agrees_with_reference (M : Core.Module) (hM : ScalarCore M) (hS : NoShadow M) (fuel : Nat)
+    (name : String) (args : List Val) (g : Globals) (v : Val) (g' : Globals) (as : List Val)
+    (hargs : HostVals args) (hg : HostGlobals g)
+    (href : CoreSem.invoke M fuel name args g = .done v g' as) :
+    ∃ fuel', VM.invoke (Opt.optProgram (lowerModule M)) fuel' name args g = .done v g' as :=
+  C01_opt_compile_correct M hM hS fuel name args g v g' as hargs hg href
+
+#print axioms C03_optimised_vm_agrees_with_reference
 
 /-- The lowering of a call names exactly the resolved callee and passes the lowered arguments in order. -/
 theorem C03_callee_is_resolved_name (fn : String) (ty : ITy) (args : Args) (k : Nat) :
